@@ -71,7 +71,7 @@ def r1_reset_table(ctx):
 
 def game_ending_table(ctx):
     facts = ctx.facts
-    ro = {BOARD + '::max_seen_position_count', BOARD + '::halfmove_clock', BOARD + '::turn',
+    ro = {BOARD + '::max_seen_position_count', BOARD + '::halfmove_clock', BOARD + '::turn', 'chess::board::move_info::MoveInfo::halfmove_clock',
           EVAL + 'player_is_in_check', EVAL + 'current_player_is_in_check'}
     opaque = {'chess::move_generator::MoveGenerator::generate_moves', 'chess::move_generator::MoveGenerator::get_attack_targets'}
     eng = Engine(facts, opaque=opaque, readonly=ro)
@@ -90,7 +90,7 @@ def r2_threshold(ctx):
     for o in outs:
         for a, v in o.conds:
             for s_ in subterms(a):
-                if s_[0] == 'call' and s_[1] == BOARD + '::halfmove_clock':
+                if s_[0] == 'call' and s_[1] in (BOARD + '::halfmove_clock', 'chess::board::move_info::MoveInfo::halfmove_clock'):
                     clock_terms.add(s_)
                 if s_[0] == 'call' and s_[1] == BOARD + '::max_seen_position_count':
                     count_terms.add(s_)
